@@ -193,6 +193,40 @@ def run_part(ctx):
                            "impl_transcript": s_impl, "model_transcript": s_mod,
                            "original_sequence": lines[ncompared - 1],
                            "replay_cmd": "echo '%s' | .work/target/release/markmap" % ln}, no_input=False)
+    # family builder_sequence: the header sequence of CTParserBuilder::build_inner (C13/SettingsModel.v): model = real MarkMap,
+    # and the real MarkMap's answers = what C13_settings_in_force states (builder's value, else the section's; unused =
+    # the section's other keys in key order; missing = [yacckind] iff no yacckind in force; merge_from Ok)
+    nb = ctx.n(200, 4000)
+    bcases = [markmapgen.builder_sequence(ctx.rng) for _ in range(nb)]
+    bseqs = [c[0] for c in bcases]
+    blines = [markmapgen.line(s) for s in bseqs]
+    bouts = core.run_lines([exe], blines, shards=1)
+    bmods = eval_model(bseqs, "b")
+    bdiff, bpred, bstat = 0, 0, {"builder_gives": 0, "section_gives": 0, "both_give": 0, "neither": 0, "unknown_keys": 0}
+    for (s, given, section), ln, out, tr in zip(bcases, blines, bouts, bmods):
+        impl, mod = norm_impl(out), render_model(tr)
+        ctx.case(ln, True)
+        for k in markmapgen.SETTING_KEYS:
+            bstat[("both_give" if k in section else "builder_gives") if given[k] is not None
+                  else ("section_gives" if k in section else "neither")] += 1
+        bstat["unknown_keys"] += sum(1 for k in section if k not in markmapgen.SETTING_KEYS)
+        tail = [[int(x) for x in r.split()] for r in impl.split(" # ")[0].split(" | ")][-9:]
+        want = markmapgen.builder_expected_tail(given, section)
+        bad = None
+        if impl != mod:
+            bdiff += 1
+            bad = "MarkMap (builder_sequence): implementation differs from the Coq mirror C12/MarkMapModel.v"
+        elif "PANIC" in impl or tail != want:
+            bpred += 1
+            bad = "MarkMap (builder_sequence): the settings in force differ from C13_settings_in_force"
+        if bad and bdiff + bpred <= 5:
+            ctx.violation({"broken": bad, "sequence": ln, "coq_term": markmapgen.coq_term(s), "builder_given": given,
+                           "section": section, "impl_transcript": impl, "model_transcript": mod, "expected_tail": want,
+                           "replay_cmd": "echo '%s' | .work/target/release/markmap" % ln}, no_input=False)
+    ctx.oblige(bdiff == 0 and bpred == 0 and len(bouts) == nb,
+               "MarkMap builder_sequence (CTParserBuilder header merge): implementation = Coq mirror = the statement of "
+               "C13_settings_in_force on %d sequences" % nb)
+    ctx.coverage["markmap_builder_sequence"] = {"sequences": nb, "differences": bdiff, "prediction_failures": bpred, **bstat}
     ctx.oblige(ndiff == 0 and ncompared == n,
                "MarkMap: implementation = Coq mirror (C12/MarkMapModel.v) on %d operation sequences (%d operations)"
                % (ncompared, nops))
